@@ -263,11 +263,11 @@ pub fn c15_request_side(cc: &CutCase) -> Verdict {
             case.script = vec![Step::Send { from: 0, to: n }];
             let obs = run_mem(&case, &MemOpts { cut_at: Some((k, kind)), ..Default::default() });
             let label = format!("{:?}", kind).to_lowercase();
-            if let Some(p) = obs.panics.first() {
-                return fail(format!("C15/{}/panic/{}", label, vcore::panics::signature_of(p)), format!("cut after {} bytes: {} at {}", k, p.message, p.location));
-            }
             if let Some(s) = &obs.stall {
                 return fail(format!("C15/{}/stall", label), format!("cut after {} bytes: {}", k, s));
+            }
+            if let Some(p) = obs.panics.first() {
+                return fail(format!("C15/{}/panic/{}", label, vcore::panics::signature_of(p)), format!("cut after {} bytes: {} at {}", k, p.message, p.location));
             }
             let got: Vec<Option<u32>> = obs.delivered.iter().map(|d| d.id).collect();
             // never deliver what was not complete (or not sent)
